@@ -285,14 +285,74 @@ func parseSMTString(s string) (string, bool) {
 // ---- reading the inputs off the model ---------------------------------------------------------------
 
 type extractor struct {
-	m     *modelSession
-	objs  map[string]bool
-	nobj  int
-	fail  string
-	depth int
+	m       *modelSession
+	objs    map[string]bool
+	nobj    int
+	fail    string
+	depth   int
+	collect bool     // first pass: gather the integer terms that a smaller model should bound
+	terms   []string // integer-valued input terms (not object references)
+	noted   map[string]bool
+}
+
+func (e *extractor) note(term string) {
+	if e.collect && !e.noted[term] {
+		e.noted[term] = true
+		e.terms = append(e.terms, term)
+	}
+}
+
+// ref reads an object reference (never bounded by the shrink pass).
+func (e *extractor) ref(term string) (int64, bool) {
+	v, err := e.m.get(term)
+	if err != nil {
+		e.fail = "get-value: " + err.Error()
+		return 0, false
+	}
+	n, ok := parseSMTInt(v)
+	if !ok {
+		e.fail = "not an integer: " + v
+	}
+	return n, ok
+}
+
+// check re-solves with extra assertions in a new scope; on success the scope stays open.
+func (m *modelSession) tryBound(terms []string, bound int64) bool {
+	var b strings.Builder
+	b.WriteString("(push 1)\n")
+	for _, t := range terms {
+		fmt.Fprintf(&b, "(assert (and (<= (- %d) %s) (<= %s %d)))\n", bound, t, t, bound)
+	}
+	b.WriteString("(check-sat)\n")
+	io.WriteString(m.in, b.String())
+	for {
+		line, err := m.out.ReadString('\n')
+		if err != nil {
+			return false
+		}
+		line = strings.TrimSpace(line)
+		switch line {
+		case "sat":
+			return true
+		case "unsat", "unknown", "timeout":
+			io.WriteString(m.in, "(pop 1)\n(check-sat)\n")
+			for {
+				l2, err := m.out.ReadString('\n')
+				if err != nil {
+					return false
+				}
+				l2 = strings.TrimSpace(l2)
+				if l2 == "sat" || l2 == "unsat" || l2 == "unknown" || l2 == "timeout" {
+					break
+				}
+			}
+			return false
+		}
+	}
 }
 
 func (e *extractor) int(term string) (int64, bool) {
+	e.note(term)
 	v, err := e.m.get(term)
 	if err != nil {
 		e.fail = "get-value: " + err.Error()
@@ -400,7 +460,7 @@ func (e *extractor) value(t types.Type, leafTerm func(l leaf) string) (any, bool
 		if term == "" {
 			return nil, true
 		}
-		r, ok := e.int(term)
+		r, ok := e.ref(term)
 		if !ok {
 			return nil, false
 		}
@@ -449,7 +509,7 @@ func (e *extractor) value(t types.Type, leafTerm func(l leaf) string) (any, bool
 		if lenT == "" || arrT == "" {
 			return nil, true
 		}
-		arr, ok := e.int(arrT)
+		arr, ok := e.ref(arrT)
 		if !ok {
 			return nil, false
 		}
@@ -462,6 +522,9 @@ func (e *extractor) value(t types.Type, leafTerm func(l leaf) string) (any, bool
 		}
 		cp, _ := e.int(capT)
 		off, _ := e.int(offT)
+		if e.collect && n > 4 {
+			n = 4 // first pass only gathers terms
+		}
 		if n < 0 || n > 24 {
 			e.fail = fmt.Sprintf("slice of length %d in the model", n)
 			return nil, false
@@ -575,6 +638,19 @@ func tryReplay(prop string, o *Oblig, in *ObligInstance, path, verif string, ri 
 		return note("model: " + err.Error())
 	}
 	defer m.close()
+	// shrink: gather the integer inputs, then look for a model in which they are small
+	pre := &extractor{m: m, objs: map[string]bool{}, collect: true, noted: map[string]bool{}}
+	for i, v := range ri.ParamVals {
+		pre.param(v, ri.ParamTypes[i])
+	}
+	if len(pre.terms) > 0 {
+		for _, bound := range []int64{16, 256, 65536} {
+			if m.tryBound(pre.terms, bound) {
+				doc["replay_shrunk_to"] = bound
+				break
+			}
+		}
+	}
 	ex := &extractor{m: m, objs: map[string]bool{}}
 	var inputs []any
 	for i, v := range ri.ParamVals {
